@@ -319,7 +319,15 @@ type LemmaParam struct {
 	Sort string // "bv8","bv16","bv32","bv64","bool","i8".. (iN signed, uN unsigned)
 }
 
+type Macro struct {
+	Name   string
+	Params []string
+	E      Expr
+	Text   string
+}
+
 type ContractSet struct {
+	Macros map[string]*Macro        // key: pkgpath + "::" + name
 	Funcs  map[string]*FuncContract // key: pkgpath + "::" + Key
 	Lemmas []*Lemma
 	Files  []string
@@ -339,7 +347,7 @@ func splitNames(s string) []string {
 
 // loadContracts reads every contracts_verif.go under root (the repository).
 func loadContracts(root string, pkgPathOf func(dir string) string) (*ContractSet, error) {
-	cs := &ContractSet{Funcs: map[string]*FuncContract{}}
+	cs := &ContractSet{Funcs: map[string]*FuncContract{}, Macros: map[string]*Macro{}}
 	var files []string
 	filepath.Walk(root, func(p string, info os.FileInfo, err error) error {
 		if err == nil && !info.IsDir() && info.Name() == "contracts_verif.go" {
@@ -369,7 +377,7 @@ func (cs *ContractSet) parseFile(path, pkg string) error {
 	var items []item
 	keywords := map[string]bool{"func": true, "lemma": true, "requires": true, "ensures": true, "modifies": true,
 		"loop": true, "let": true, "panics": true, "replay": true, "import": true, "inline": true, "trusted": true,
-		"split": true, "mayalias": true, "assume": true}
+		"split": true, "mayalias": true, "assume": true, "define": true}
 	for i, ln := range strings.Split(string(data), "\n") {
 		t := strings.TrimSpace(ln)
 		if !strings.HasPrefix(t, "//@") {
@@ -452,6 +460,21 @@ func (cs *ContractSet) parseFile(path, pkg string) error {
 				return fmt.Errorf("%s:%d: duplicate contract for %s", path, it.line, k)
 			}
 			cs.Funcs[k] = cur
+		case "define":
+			// define name(a, b) = expr
+			k := strings.Index(it.text, "=")
+			p := strings.Index(it.text, "(")
+			q := strings.Index(it.text, ")")
+			if k < 0 || p < 0 || q < p || q > k {
+				return fmt.Errorf("%s:%d: define name(params) = expr", path, it.line)
+			}
+			e, err := parseExpr(strings.TrimSpace(it.text[k+1:]))
+			if err != nil {
+				return fmt.Errorf("%s:%d: %v", path, it.line, err)
+			}
+			m := &Macro{Name: strings.TrimSpace(it.text[:p]), Params: splitNames(it.text[p+1 : q]), E: e, Text: it.text}
+			cs.Macros[pkg+"::"+m.Name] = m
+			cur = nil
 		case "lemma":
 			// lemma name(x bv32, y bv64): expr
 			k := strings.Index(it.text, ":")
@@ -500,7 +523,7 @@ func (cs *ContractSet) parseFile(path, pkg string) error {
 				}
 			case "modifies":
 				cur.HasMod = true
-				if strings.TrimSpace(it.text) == "nothing" {
+				if strings.TrimSpace(tagRe.ReplaceAllString(it.text, "")) == "nothing" {
 					break
 				}
 				text := it.text
